@@ -258,25 +258,47 @@ def _task_messages(_):
                                                           type(e).__name__),
                           'building / reading a call with body %r raised %r'
                           % (sig, e), rep, size=len(sig))
-        # received by the bus in either byte order and handed on
-        for le in (True, False):
+        # received by the bus in either byte order and handed on; the
+        # header as other implementations may legally write it: plain, the
+        # fields in reverse order (signature first), an unknown field (code
+        # 10..200, any type) first / in the middle / last
+        shapes = [('plain', None, ()),
+                  ('reversed', ['signature', 'destination', 'interface',
+                                'member', 'path'], ()),
+                  ('unknown-first', None, ((0, 10, Var('s', 'x')),)),
+                  ('unknown-middle', None, ((2, 127, Var('t', 5)),)),
+                  ('unknown-last', None, ((5, 200, Var('ay', [1, 2])),)),
+                  ('unknown-twice', None, ((0, 11, Var('u', 1)),
+                                           (3, 12, Var('(ss)', ['a',
+                                                                'b'])))),
+                  ]
+        for si, (shape, forder, extra) in enumerate(shapes):
+          for le in (True, False):
             res.count('evaluations')
             res.count('transitions', 2)
-            order = 'little' if le else 'big'
+            order = ('little' if le else 'big') + \
+                ('' if shape == 'plain' else '/' + shape)
 
-            def raw_for(dest, le=le):
+            def raw_for(dest, le=le, forder=forder, extra=extra):
                 return R.encode_message(
                     1, 77, {'path': '/p', 'member': 'M', 'interface': 'a.b',
-                            'destination': dest}, sig, refvals, little=le)
+                            'destination': dest}, sig, refvals, little=le,
+                    field_order=forder, extra_fields=extra)
             try:
                 m = MSG.parseMessage(raw_for(':1.9'), [])
-                if not R.same(m.body, R.as_plain(ts, refvals)):
+                if not R.same(m.body, R.as_plain(ts, refvals)) or \
+                        m.destination != ':1.9' or m.member != 'M':
                     res.violation('%s/message/parse/%s/%s' % (PROP, order,
                                                               sig),
-                                  'a %s-endian call with body %r %r was '
-                                  'read as %r' % (order, sig, refvals,
-                                                  m.body), rep,
+                                  'a %s call with body %r %r was '
+                                  'read as %r (member %r, destination %r)'
+                                  % (order, sig, refvals, m.body,
+                                     getattr(m, 'member', None),
+                                     getattr(m, 'destination', None)), rep,
                                   size=len(sig))
+                    continue
+                if shape != 'plain' and (len(fams) + si) % 5 != \
+                        fams.index((sig, refvals)) % 5:
                     continue
                 sender, p, n = c03.forwarded(raw_for)
                 if p is None:
@@ -285,7 +307,7 @@ def _task_messages(_):
                         or p['body'] != refvals:
                     res.violation(
                         '%s/message/forwarded/%s/%s' % (PROP, order, sig),
-                        'a %s-endian call with body %r %r came out of the '
+                        'a %s call with body %r %r came out of the '
                         'bus announcing %s-endian and carrying %r (%s)'
                         % (order, sig, refvals,
                            'little' if p['little'] else 'big', p['body'],
@@ -294,7 +316,7 @@ def _task_messages(_):
                 c03._FWD.clear()
                 res.violation('%s/message/forwarded-malformed/%s'
                               % (PROP, order),
-                              'a %s-endian call with body %r %r came out of '
+                              'a %s call with body %r %r came out of '
                               'the bus malformed: %s' % (order, sig, refvals,
                                                          e), rep,
                               size=len(sig))
@@ -302,7 +324,7 @@ def _task_messages(_):
                 c03._FWD.clear()
                 res.violation('%s/message/raises/%s' % (PROP,
                                                         type(e).__name__),
-                              'a %s-endian call with body %r raised %r'
+                              'a %s call with body %r raised %r'
                               % (order, sig, e), rep, size=len(sig))
     # the encoding of a call is a function of that call alone: sequences of
     # calls (with and without descriptor arguments) issued one after the
